@@ -5,7 +5,8 @@ from refmodel.accept, never from this generator.
 At every position the generator emits the valid shape for the declared type with symbolic leaf values
 (unconstrained ints / strings: they may violate bounds), and -- while the mutation budget lasts -- may instead
   * put an arbitrary J0 value (None | bool | int | str) or an empty list / empty object there (wrong kind),
-  * drop a required key, add an unknown key, send explicit null for an optional key,
+  * drop a required key, rename a required key to an unknown one, add an unknown key, send explicit null for an
+    optional key,
   * use an unknown tag, a non-string tag, the catch-all tag, drop '.tag', drop or duplicate the payload key,
   * use the bare-string form of a union.
 """
@@ -182,6 +183,10 @@ class DocGen:
                     out[f.name] = None
                     continue
             elif self.mutate('drop-required'):
+                continue
+            elif self.mutate('rename-required'):
+                ft = f.data_type
+                out[UNKNOWN_KEY] = self.gen(ft, depth + 1)      # the value travels under an unknown key
                 continue
             ft = f.data_type
             if is_nullable_type(ft):
